@@ -224,7 +224,7 @@ func genStream(real bool) func(t *rapid.T) StreamCase {
 			c.Kinds = append(c.Kinds, k)
 		}
 		if !real && rapid.IntRange(0, 3).Draw(t, "fail") == 0 {
-			c.Fail = rapid.SampledFrom([]string{"boom", "agent: key not found", "é"}).Draw(t, "failText")
+			c.Fail = rapid.SampledFrom([]string{"boom", "agent: key not found", "é", "EOF", "EOF", "unexpected EOF"}).Draw(t, "failText")
 		}
 		c.Tail = rapid.SampledFrom([]string{"clean", "clean", "clean", "trunclen", "truncbody", "oversize"}).Draw(t, "tail")
 		switch c.Tail {
@@ -513,6 +513,10 @@ func exec(c StreamCase) (vh.Outcome, error) {
 			return out, vh.Errf("tail %s (% x) ended service without an error", c.Tail, c.TailBytes)
 		}
 	}
+	// whatever the frames were: a service that ends WITHOUT an error has answered every complete frame
+	if ret == nil && len(replies) != len(c.Frames) {
+		return out, vh.Errf("ServeAgent returned nil (everything served) but wrote %d responses for %d complete frames %v (served agent fails with %q): a frame was neither answered nor did it end the connection with an error", len(replies), len(c.Frames), c.Kinds, c.Fail)
+	}
 	return out, nil
 }
 
@@ -530,7 +534,7 @@ func codeOf(b []byte) any {
 	return b[0]
 }
 
-const rule = "byte streams for ServeAgent over an in-memory connection: 0..8 frames from a grammar (add-hardware-certificate in the new and the legacy encoding with real, bit-flipped and truncated key / certificate blobs, junk; list slots; read / attest slot with slot names; wait with any code; the nine standard requests well-formed (built by the library client), truncated, and with a lifetime constraint cut short; unknown codes and extension with random bodies; frames of length 0, 1 and 2 with any code), followed by a clean end, a truncated length prefix, a truncated body or a declared length in {16 MiB+1, 2^30, 2^31, 2^32-1}; the served agent is a total recording agent that succeeds or fails every call with a text. Oracle: the harness parses the stream itself; a well-formed frame gets exactly one response of the right kind (SUCCESS / error text, marshalled slot replies, standard reply code, byte-identical forwarded reply) with the arguments recorded by the served agent; a malformed frame is answered or ends the connection with a non-nil error; responses in request order; nothing after the end; clean end => nil; truncated length prefix or truncated body (including a stream that ends right after a length prefix) => error; oversize => error and < 8 MiB allocated. Non-trivial: >= 2 frames mixing well-formed and malformed, or a non-clean tail after >= 1 frame."
+const rule = "byte streams for ServeAgent over an in-memory connection: 0..8 frames from a grammar (add-hardware-certificate in the new and the legacy encoding with real, bit-flipped and truncated key / certificate blobs, junk; list slots; read / attest slot with slot names; wait with any code; the nine standard requests well-formed (built by the library client), truncated, and with a lifetime constraint cut short; unknown codes and extension with random bodies; frames of length 0, 1 and 2 with any code), followed by a clean end, a truncated length prefix, a truncated body or a declared length in {16 MiB+1, 2^30, 2^31, 2^32-1}; the served agent is a total recording agent that succeeds or fails every call with a text or with exactly io.EOF / io.ErrUnexpectedEOF. Oracle: the harness parses the stream itself; a well-formed frame gets exactly one response of the right kind (SUCCESS / error text, marshalled slot replies, standard reply code, byte-identical forwarded reply) with the arguments recorded by the served agent; a malformed frame is answered or ends the connection with a non-nil error; responses in request order; nothing after the end; clean end => nil; nil => as many responses as complete frames; truncated length prefix or truncated body (including a stream that ends right after a length prefix) => error; oversize => error and < 8 MiB allocated. Non-trivial: >= 2 frames mixing well-formed and malformed, or a non-clean tail after >= 1 frame."
 
 func TestC12Stream(t *testing.T) {
 	vh.Run(t, vh.Spec[StreamCase]{Property: "C12", Name: "TestC12Stream", Rule: rule, Gen: genStream(false), Exec: exec})
